@@ -33,6 +33,7 @@ type InstSrc struct {
 	Extras    []string `json:"extras"`
 	Subdir    bool     `json:"subdir"`
 	Overwrite bool     `json:"overwrite"`
+	Loc       string   `json:"loc"` // "elsewhere" | "installed" (the installed plugin offered as its own source)
 }
 
 type InstIn struct {
@@ -162,6 +163,13 @@ func runPluginInstall() int {
 			pluginPath = filepath.Join(src, "notation-p")
 			if in.Src.Cand == "misnamed" {
 				pluginPath = filepath.Join(src, "backup-notation-p")
+			}
+		}
+		if in.Src.Loc == "installed" {
+			// the installed plugin offered as its own source
+			pluginPath = filepath.Join(root, "p")
+			if in.Src.Shape == "file" {
+				pluginPath = filepath.Join(root, "p", "notation-p")
 			}
 		}
 		bystBefore := snapTree(filepath.Join(root, "q"))
